@@ -23,6 +23,7 @@ import (
 	"github.com/kardiachain/go-kardia/kai/state/cstate"
 	"github.com/kardiachain/go-kardia/lib/common"
 	"github.com/kardiachain/go-kardia/lib/crypto"
+	kevents "github.com/kardiachain/go-kardia/lib/events"
 	"github.com/kardiachain/go-kardia/lib/log"
 	kos "github.com/kardiachain/go-kardia/lib/os"
 	"github.com/kardiachain/go-kardia/mainchain/blockchain"
@@ -176,12 +177,15 @@ func VerifRestoreDB(ops []VerifOp, n int, rec *VerifRecorder) *VerifRecDB {
 
 type VerifRecWAL struct {
 	*BaseWAL
-	Rec      *VerifRecorder
-	Path     string
-	Node     *VerifNode
-	unsynced []string
-	pendEnd  int64
-	pendOwn  []int
+	Rec       *VerifRecorder
+	Path      string
+	Node      *VerifNode
+	unsynced  []string
+	pendEnd   int64
+	pendOwn   []int
+	pendVotes []*types.Vote
+	// OnSynced is called after a sync returned, with the kinds and the own votes it made durable.
+	OnSynced func(kinds []string, ownVotes []*types.Vote)
 }
 
 func verifMsgKind(msg WALMessage) string {
@@ -216,6 +220,9 @@ func (w *VerifRecWAL) note(msg WALMessage) {
 	case EndHeightMessage:
 		w.pendEnd = m.Height
 	case msgInfo:
+		if vm, ok := m.Msg.(*VoteMessage); ok && m.PeerID == "" {
+			w.pendVotes = append(w.pendVotes, vm.Vote)
+		}
 		if m.PeerID == "" && w.Node != nil {
 			// find the signature request this own message came from (latest matching one)
 			for i := len(w.Node.Signed) - 1; i >= 0; i-- {
@@ -253,7 +260,10 @@ func (w *VerifRecWAL) sync(f func() error) error {
 	op.Label += ")"
 	idx := w.Rec.before(op)
 	err := f()
-	w.unsynced, w.pendEnd, w.pendOwn = nil, 0, nil
+	if w.OnSynced != nil && err == nil {
+		w.OnSynced(op.WalMsgs, w.pendVotes)
+	}
+	w.unsynced, w.pendEnd, w.pendOwn, w.pendVotes = nil, 0, nil, nil
 	if idx >= 0 {
 		b, _ := os.ReadFile(w.Path)
 		w.Rec.Ops[idx].FileAfter = b
@@ -506,4 +516,80 @@ func (n *VerifNode) RunToHeight(h uint64, maxSteps int, beforeHeight func(next u
 		}
 	}
 	return n.CS.state.LastBlockHeight >= h
+}
+
+// ---------------------------------------------------------------------------------------------
+// free-running variant: the REAL Start() (OnStart, receiveRoutine, real ticker) on the recording WAL.
+// Only an ORDER invariant is judged on it (write-ahead), which holds on every schedule.
+
+type VerifWriteAheadViolation struct {
+	Height uint64
+	Round  uint32
+	Type   int32
+	What   string
+}
+
+// VerifFreeRun boots the full stack, starts it with the real Start(), lets it run until `target`
+// heights are committed or the deadline passes, and returns the write-ahead violations observed:
+// an own vote that became part of the node's state (EventVote fired from handleMsg, from where the
+// reactor gossips it) before a WAL fsync covering it had returned.
+func VerifFreeRun(c VerifFullConfig, target uint64, deadline time.Duration) (viol []VerifWriteAheadViolation, reached uint64, ownVotes int, err error) {
+	defer func() {
+		if p := recover(); p != nil {
+			err = fmt.Errorf("free run panicked: %v\n%s", p, debug.Stack())
+		}
+	}()
+	n, err := VerifBootFull(c)
+	if err != nil {
+		return nil, 0, 0, err
+	}
+	defer n.StopFull()
+	// give the real ticker back
+	n.CS.timeoutTicker = NewTimeoutTicker()
+	n.CS.timeoutTicker.SetLogger(n.CS.Logger)
+	n.CS.doWALCatchup = false // VerifBootFull already ran the catch-up on this WAL
+	var mu sync.Mutex
+	synced := map[string]bool{}
+	w := n.Full.WAL
+	w.OnSynced = func(kinds []string, votes []*types.Vote) {
+		mu.Lock()
+		for _, v := range votes {
+			synced[string(v.Signature)] = true
+		}
+		mu.Unlock()
+	}
+	n.CS.evsw.AddListenerForEvent("verif-write-ahead", types.EventVote, func(data kevents.EventData) {
+		v, ok := data.(*types.Vote)
+		if !ok || v.ValidatorAddress != n.Addr {
+			return
+		}
+		mu.Lock()
+		ownVotes++
+		if !synced[string(v.Signature)] {
+			viol = append(viol, VerifWriteAheadViolation{Height: v.Height, Round: v.Round, Type: int32(v.Type),
+				What: "own vote entered the node's state (EventVote) before any WAL fsync covering it had returned"})
+		}
+		mu.Unlock()
+	})
+	if err := n.CS.Start(); err != nil {
+		return nil, 0, 0, fmt.Errorf("Start: %w", err)
+	}
+	t0 := time.Now()
+	for time.Since(t0) < deadline {
+		n.CS.mtx.RLock()
+		reached = n.CS.state.LastBlockHeight
+		n.CS.mtx.RUnlock()
+		if reached >= target {
+			break
+		}
+		time.Sleep(2 * time.Millisecond)
+	}
+	n.CS.Stop()
+	select {
+	case <-n.CS.done:
+	case <-time.After(5 * time.Second):
+	}
+	mu.Lock()
+	defer mu.Unlock()
+	return viol, reached, ownVotes, nil
 }
